@@ -13,6 +13,10 @@ TEXT = {
            "DESIGN.md section 4, C03", "property-based testing (rapid): generated motion patterns against a declarative length rule"),
  "C04": _t("same harness with window clock trajectories on/around the boundaries (1 ns either side, windows over midnight) and generated disk-check/start outcomes; storage must be asked exactly when the statement's conjunction holds (window evaluated by an independent closed form)." + EXPL,
            "DESIGN.md section 4, C04", "property-based testing (rapid): generated histories x clock trajectories x refusal plans against an iff-oracle on the sink trace"),
+ "C05": _t("generated request/clock schedules (arbitrary order and well-formed sessions, injected clock with boundary-valued advances) against the all-pairs interval bound of the statement; plus the real MotionProcessor composed with the throttle under continuous motion." + EXPL,
+           "DESIGN.md section 4, C05", "property-based testing (rapid): generated schedules with an injected clock, all-pairs interval invariant (running minimum)"),
+ "C06": _t("generated caller-well-formed schedules with failing wrapped starts; model-free trace invariants, a budget sandwich derived from forwarded frames and elapsed time, and an exact counter model on frozen-clock histories." + EXPL,
+           "DESIGN.md section 4, C06", "property-based testing (rapid): trace invariants + budget sandwich + exact reference model on frozen-clock histories"),
  "C07": _t("generated FFC-free streams with boundary-valued pixels; Detect() and the processor's MotionDetected callbacks are compared frame by frame with a reference detector written from the statement." + EXPL,
            "DESIGN.md section 4, C07", "property-based testing (rapid): differential against an independent reference detector"),
  "C08": _t("pairs of streams differing only in border pixels (fixed and dynamic threshold) or in sub-threshold interior pixels (fixed): detection, background, threshold and recording boundaries must be identical, also through the raw-frame Process() path." + EXPL,
